@@ -45,12 +45,13 @@ structure Facts where
   oneWait : Bool         -- Cmd.Wait has a single call site
   startGuarded : Bool    -- the asynchronously started listening stream is refused once close() ran
   closeAny : Bool        -- the client's Close() closes the transport whatever the client's state (no guard but `transport != nil`)
+  lockFree : Bool        -- no lock of the transport is held while a call reads its stream (calls, Close() and the handler registry are independent of a stalled call)
   answerBound : Bool     -- the POST that carries the client's answer to a request of the server is made with a context derived from the stream's (Close() cancels it)
   deriving DecidableEq, Repr
 
 /-- Every fact present (the good corner of the family; witnesses switch single facts off). -/
 def Facts.allGood : Facts :=
-  ⟨true, true, true, true, true, true, true, true, true, true, true, true, true, true, true⟩
+  ⟨true, true, true, true, true, true, true, true, true, true, true, true, true, true, true, true⟩
 
 /-- Run-time configuration of a scenario. -/
 structure Cfg where
@@ -97,6 +98,9 @@ structure St where
   token : Bool := false       -- the Cmd's single context result has not been received yet (exactly one Wait can finish)
   starter : Bool := false     -- the goroutine that will open the listening stream has not run yet
   stream : Bool := false      -- the listening stream is open
+  heldReads : Nat := 0        -- calls that are reading their stream with a read lock of the transport held (only where `lockFree` fails)
+  writerWaiting : Bool := false -- somebody (Close(), Register/UnregisterNotificationHandler) waits for the write side of that lock:
+                              -- a waiting writer of a sync.RWMutex keeps new readers out
   answerPost : Bool := false  -- a POST carrying the client's answer to a request of the server is in flight (with the goroutine
                               -- that performs it — the stream's reader, synchronously — and its connection)
 
@@ -121,6 +125,7 @@ inductive Ev
   | closeBegin
   | closeEnd
   | starterRun
+  | handlerOp                      -- Register / UnregisterNotificationHandler: takes the write side of the handler registry's lock
   | srvRequest                     -- a request of the server arrives on the stream: the reader starts the POST with the client's answer
   | answerDone                     -- the peer responds to that POST (or its own 30 s timer fires)
   | complete (c : Nat) (k : Case)
@@ -159,6 +164,10 @@ def relBody (f : Facts) (cfg : Cfg) (cl : Call) : Case → Bool
   | .ctx => false
   | _ => cl.body && !f.bodyClosed
 
+/-- The read lock a returning call releases (only where `lockFree` fails: a Streamable call that was reading its SSE answer). -/
+def heldAfter (f : Facts) (cfg : Cfg) (cl : Call) (n : Nat) : Nat :=
+  if !f.lockFree && cfg.t = .streamSse && cl.body && !cl.refused then n - 1 else n
+
 def step (f : Facts) (cfg : Cfg) (s : St) : Ev → Option St
   | .issue c =>
     let cl := s.calls c
@@ -168,7 +177,11 @@ def step (f : Facts) (cfg : Cfg) (s : St) : Ev → Option St
   | .headers c ok =>
     let cl := s.calls c
     if cfg.t.http && waiting cl && !cl.body && !cl.connErr && !cl.slot then
-      some (setCall s c { cl with body := true, refused := !ok, connErr := !ok })
+      if !f.lockFree && cfg.t = .streamSse && ok then
+        -- the call enters its stream read with the read lock held — unless a writer is waiting: then it blocks at the lock
+        if s.writerWaiting then none
+        else some { setCall s c { cl with body := true, refused := !ok, connErr := !ok } with heldReads := s.heldReads + 1 }
+      else some (setCall s c { cl with body := true, refused := !ok, connErr := !ok })
     else none
   | .frame c => if cfg.t.shared && !s.streamDown then some { s with wire := fun d => if d = c then true else s.wire d } else none
   | .deliver c =>
@@ -209,6 +222,7 @@ def step (f : Facts) (cfg : Cfg) (s : St) : Ev → Option St
   | .closeBegin =>
     if s.closing then none
     else if !(f.closeAny || cfg.connected) then none   -- Close() returns at its state guard: nothing is closed
+    else if !f.lockFree && s.heldReads > 0 then some { s with writerWaiting := true }   -- Close() blocks at the lock a stalled call holds
     else match cfg.t with
       | .sse => some { s with closing := true, streamDown := true, answerPost := s.answerPost && !f.answerBound }
       | .stdio => some { s with closing := true, tctx := true, child := false, streamDown := true,
@@ -220,6 +234,9 @@ def step (f : Facts) (cfg : Cfg) (s : St) : Ev → Option St
     else none
   | .starterRun =>
     if s.starter then some { s with starter := false, stream := !(f.startGuarded && s.closing) } else none
+  | .handlerOp =>
+    if !f.lockFree && s.heldReads > 0 then some { s with writerWaiting := true }   -- blocked behind the stalled call's read lock
+    else some s
   | .srvRequest =>
     if !s.closing && !s.answerPost && ((cfg.t.shared && s.reader && !s.streamDown) || (cfg.t.http && s.stream)) then
       some { s with answerPost := true }
@@ -228,9 +245,10 @@ def step (f : Facts) (cfg : Cfg) (s : St) : Ev → Option St
   | .complete c k =>
     let cl := s.calls c
     if waiting cl && ready f cfg s cl k then
-      some (setCall s c { cl with returned := some (result f cl k),
-                                  inTable := cl.inTable && !(f.deleteDeferred || k = .answer),
-                                  body := relBody f cfg cl k })
+      some { setCall s c { cl with returned := some (result f cl k),
+                                   inTable := cl.inTable && !(f.deleteDeferred || k = .answer),
+                                   body := relBody f cfg cl k } with
+             heldReads := heldAfter f cfg cl s.heldReads }
     else none
 
 def run (f : Facts) (cfg : Cfg) : St → List Ev → Option St
@@ -357,6 +375,7 @@ structure Tables where
   bodies : List BodySite
   selects : List SelectSite
   chanClosers : List (Client × Text)  -- functions that `close` a pending channel (made for / ranged over a pending table)
+  lockFree : List Client              -- clients none of whose stream-reading functions holds a lock across its read loop (no deferred unlock, every lock taken before the loop released before it)
   answerBound : List Client           -- clients whose answer POST (to a request of the server) is made with a context derived from the stream's
   closeUnguarded : List Client        -- clients whose public `Close()` reaches `transport.close()` under no condition but `transport != nil`
   waitSites : List Text               -- functions of the stdio transport that call `Cmd.Wait`
@@ -432,6 +451,7 @@ def factsOf (tb : Tables) (t : Transport) : Facts :=
     oneWait := t != .stdio || tb.waitSites.length ≤ 1,
     startGuarded := !t.http || tb.startGuarded,
     closeAny := tb.closeUnguarded.any (· = cl),
+    lockFree := tb.lockFree.any (· = cl),
     answerBound := t = .stdio || tb.answerBound.any (· = cl) }
 
 /-! ### Server-issued requests (`Server.SendRequest / ListRoots` of the three servers)
@@ -460,7 +480,7 @@ def srvFacts (ins : List SrvInsertSite) (sv : Server) : Facts :=
 /-- The region of the family in which the property holds for transport `t`. -/
 def Facts.goodFor (f : Facts) (t : Transport) : Bool :=
   f.selCtx && f.bodyClosed && f.oneCloser && f.deleteDeferred && f.startGuarded && f.endCloses && f.exitCancels && f.oneWait &&
-  f.closeAny && f.answerBound &&
+  f.closeAny && f.answerBound && f.lockFree &&
   (!t.shared || (f.hasTable && f.selClosed && f.recvOk)) &&
   (t != .stdio || (f.selTctx && f.selTimeout))
 
